@@ -12,7 +12,8 @@ json.dump({"property": prop, "signature": sig, "case": case,
           open(os.path.join(HERE, rp), "w"), indent=1)
 kfp = os.path.join(HERE, "known_findings.json")
 kf = json.load(open(kfp))
-kf["findings"] = [e for e in kf["findings"] if not (e["property"] == prop and e["signature"] == sig)]
+# one entry per (property, signature, commit): the same symptom may have had several root causes, each repaired by its own commit
+kf["findings"] = [e for e in kf["findings"] if not (e["property"] == prop and e["signature"] == sig and e.get("commit", "-") == commit)]
 e = {"property": prop, "status": status, "signature": sig, "what_fails": what, "replay": rp}
 if commit != "-":
     e["commit"] = commit
